@@ -151,7 +151,25 @@ func (w *World) genFunc(ctr *FuncContract) (rep *FuncReport) {
 	}
 	e.rootEntry = entry.clone()
 	loops, _, _ := analyzeLoops(fn)
-	_ = loops
+	// a loop clause keyed to an ordinal the function does not have (any more) must not be dropped silently
+	maxOrd := 0
+	for _, li := range loops {
+		if li.ordinal > maxOrd {
+			maxOrd = li.ordinal
+		}
+	}
+	for n := range ctr.Invs {
+		if n > maxOrd {
+			rep.Err = fmt.Errorf("%s:%d: contract of %s: invariant for loop %d, but the function has %d loop(s)", ctr.File, ctr.Line, ctr.Name, n, maxOrd)
+			return rep
+		}
+	}
+	for n := range ctr.NoExit {
+		if n > maxOrd {
+			rep.Err = fmt.Errorf("%s:%d: contract of %s: noexit for loop %d, but the function has %d loop(s)", ctr.File, ctr.Line, ctr.Name, n, maxOrd)
+			return rep
+		}
+	}
 	f, rr := e.runBodyRoot(fn, args, binds, entry, ctr)
 	// postconditions
 	if rr.reach != "false" {
